@@ -93,3 +93,8 @@ package mp4
 //@   requires hdrOK(hdr)
 //@ func DecodeMdatLazily
 //@   requires hdrOK(hdr)
+
+// Size arithmetic used in decoder guards is taken from the code itself (inlined), so the allocation bound of trun follows
+// from "hdr.Size == expectedSize(sampleCount)" and the 1024-sample guard.
+//@ func (*TrunBox).expectedSize
+//@   inline
